@@ -34,10 +34,6 @@ Record cfg := {
 Definition eff_bt (c : cfg) : Z := if c_bt c =? 0 then default_bt else c_bt c.
 Definition eff_li (c : cfg) : Z := if c_li c =? 0 then default_li else c_li c.
 
-(* produceBlock (aggregation.go:96-99, after the repair "the idle interval never undercuts the block
-   time"): the lazy timer is re-armed with max(LazyBlockInterval, BlockTime) — the EFFECTIVE idle interval *)
-Definition eff_idle (c : cfg) : Z := Z.max (eff_li c) (eff_bt c).
-
 (* aggregation.go:17-29: the loop first sleeps until genesis time + block time *)
 Definition t0 (c : cfg) : Z := Z.max 0 (c_gen c + eff_bt c).
 
@@ -90,15 +86,13 @@ Inductive choice :=
 (* produceBlock (aggregation.go:86-101) / the blockTimer case of the normal loop (108-118):
    publishBlock runs from t to t+d; both timers are then reset with getRemainingSleep.  A timer that
    fired meanwhile is re-armed by Reset (Go >= 1.23 timers: no stale value survives a Reset).
-   [byblock]: lazy mode resets txsAvailable after a block-timer production (aggregation.go:74).
-   [li]: the interval the lazy timer is re-armed with — [eff_idle c] in the code as it is; the
-   parameter exists only so that the behaviour before the repair ([eff_li c]) can be exhibited. *)
-Definition produce_with (li : Z) (c : cfg) (s : st) (byblock : bool) : st :=
+   [byblock]: lazy mode resets txsAvailable after a block-timer production (aggregation.go:74). *)
+Definition produce (c : cfg) (s : st) (byblock : bool) : st :=
   let t := tau c s in
   let d := pdur c s in
   let e := t + d in
   {| now := e;
-     lz := if c_lazy c then e + remaining d li else lz s;
+     lz := if c_lazy c then e + remaining d (eff_li c) else lz s;
      bk := e + remaining d (eff_bt c);
      chan := chan s || existsb (fun x => x <=? e) (pend s);
      avail := if c_lazy c && byblock then false else avail s;
@@ -106,9 +100,7 @@ Definition produce_with (li : Z) (c : cfg) (s : st) (byblock : bool) : st :=
      dl := tl (dl s);
      prods := (t, d) :: prods s |}.
 
-Definition produce (c : cfg) : st -> bool -> st := produce_with (eff_idle c) c.
-
-Definition step_with (li : Z) (c : cfg) (s : st) (ch : choice) : option st :=
+Definition step (c : cfg) (s : st) (ch : choice) : option st :=
   let t := tau c s in
   match ch with
   | CEnv =>
@@ -124,18 +116,16 @@ Definition step_with (li : Z) (c : cfg) (s : st) (ch : choice) : option st :=
       then Some {| now := now s; lz := lz s; bk := bk s; chan := false; avail := true;
                    pend := pend s; dl := dl s; prods := prods s |}
       else None
-  | CLazy => if c_lazy c && (lz s =? t) then Some (produce_with li c s false) else None
+  | CLazy => if c_lazy c && (lz s =? t) then Some (produce c s false) else None
   | CBlock =>
       if bk s =? t then
         if c_lazy c && negb (avail s)
         then (* aggregation.go:77: keep ticking, blockTimer.Reset(BlockTime) *)
              Some {| now := t; lz := lz s; bk := t + Z.max 0 (eff_bt c); chan := chan s;
                      avail := avail s; pend := pend s; dl := dl s; prods := prods s |}
-        else Some (produce_with li c s true)
+        else Some (produce c s true)
       else None
   end.
-
-Definition step (c : cfg) : st -> choice -> option st := step_with (eff_idle c) c.
 
 (* does an enabled choice start a production (at instant [tau c s])? *)
 Definition produces (c : cfg) (s : st) (ch : choice) : bool :=
@@ -155,12 +145,11 @@ Inductive steps (c : cfg) : st -> st -> Prop :=
 | steps_step : forall s ch s' s'', step c s ch = Some s' -> steps c s' s'' -> steps c s s''.
 
 (* a run under an explicit schedule (used for witnesses and examples) *)
-Fixpoint run_with (li : Z) (c : cfg) (s : st) (chs : list choice) : option st :=
+Fixpoint run (c : cfg) (s : st) (chs : list choice) : option st :=
   match chs with
   | [] => Some s
-  | ch :: r => match step_with li c s ch with Some s' => run_with li c s' r | None => None end
+  | ch :: r => match step c s ch with Some s' => run c s' r | None => None end
   end.
-Definition run (c : cfg) : st -> list choice -> option st := run_with (eff_idle c) c.
 
 (* ---- the trace predicates the property is stated with ------------------------------------- *)
 
@@ -197,3 +186,6 @@ Fixpoint chain_le (i : Z) (l : list (Z * Z)) : Prop :=
 (* the deadline armed by the newest production ([first] before any) *)
 Definition armed (i first : Z) (l : list (Z * Z)) : Z :=
   match l with [] => first | p :: _ => next_fire i p end.
+
+(* guard of C17_rate_partial *)
+Definition rate_guard (c : cfg) : bool := negb (c_lazy c) || (eff_bt c <=? eff_li c).
